@@ -72,6 +72,8 @@ def gen(tier, rng):
             if any(f[0] == k for f in faults):
                 continue
             stmt, kind, under = fault(rng, nums)
+            if kind in ("while", "wend") and any(f[1] in ("while", "wend") for f in faults):
+                continue          # a WHILE and a WEND would pair up and be no fault at all
             pre = rng.choice(PREFIXES)
             if kind in ("while", "wend", "syntax") and "IF" in pre:
                 pre = ""
